@@ -336,7 +336,11 @@ def stream_memo_generic(ctx, cirq, n):
     enc_rows, dec_rows = [], []
     for i in range(n):
         pool = []
-        v = gen_generic_value(ctx.rng, pool, ctx.rng.randint(1, 5))
+        if ctx.rng.random() < 0.15:
+            v = gen_generic_value(ctx.rng, pool, ctx.rng.randint(1, 4))
+        else:       # several members sharing one pool of by-key objects
+            items = [gen_generic_value(ctx.rng, pool, ctx.rng.randint(1, 4)) for _ in range(ctx.rng.randint(2, 5))]
+            v = ('arr', items) if ctx.rng.random() < 0.7 else ('dict', [(f'm{n}', x) for n, x in enumerate(items)])
         obj = realise_generic(v, classes)
         text = cirq.to_json(obj)
         j = parse_json_ordered(text)
@@ -479,7 +483,7 @@ def stream_memo_circuits(ctx, cirq, n):
     rows = []
     for i in range(n):
         pool = []
-        v = gen_circ_tree(ctx.rng, pool, ctx.rng.randint(2, 5))
+        v = ('list', [gen_circ_tree(ctx.rng, pool, ctx.rng.randint(2, 4)) for _ in range(ctx.rng.randint(1, 4))])
         obj = realise_circ(v, cirq)
         text = cirq.to_json(obj)
         evs = text_events(text)
@@ -579,8 +583,8 @@ def run(ctx):
                         'sharing is identified with equality (CirqEncoder._memo is keyed by ==/hash); object identity (the id()-keyed _cache) is explored, not modelled']
     ctx.set_obligations(coq.compile_props('C11'))
     specs = load_specs()
-    stream_memo_generic(ctx, cirq, 150 if quick else 1500)
-    stream_memo_circuits(ctx, cirq, 150 if quick else 1500)
+    stream_memo_generic(ctx, cirq, 300 if quick else 3000)
+    stream_memo_circuits(ctx, cirq, 300 if quick else 3000)
     stream_corpus(ctx, mods, specs)
     pop = Population(mods, specs)
     ex = stream_classes(ctx, mods, specs, pop)
@@ -613,6 +617,39 @@ def replay(ctx, data):
         got = cirq.read_json(json_text=open(data['path'] + data['ext']).read())
         print('stored repr:', repr(want)[:400], '\nread       :', repr(got)[:400])
         return proper_eq(got, want)
+    if k == 'class':
+        x = pickle.loads(base64.b64decode(data['pickle_b64'])) if 'pickle_b64' in data else cirq.read_json(json_text=data['json_text'])
+        ex = Explorer(ctx, mods, None)
+        fails = ex.check(data['cls'].split('/')[-1], x, data.get('origin', 'replay'))
+        print('value:', _short_repr(x))
+        for c, d in fails:
+            print(f'  {c}: {d}'[:500])
+        return not any(c == data['check'] or (data['check'] in ('hash', 'behaviour', 'nested') and c == 'json') for c, _ in fails)
+    if k == 'qids':
+        qs = pickle.loads(base64.b64decode(data['pickle_b64']))
+        ok = True
+        for a in qs:
+            for b in qs:
+                lt, gt, eq = bool(a < b), bool(a > b), bool(a == b)
+                ok &= [lt, eq, gt].count(True) == 1 and (not eq or hash(a) == hash(b))
+                for c in qs:
+                    ok &= not (a < b and b < c and not a < c)
+        s1, s2 = sorted(qs), sorted(reversed(qs))
+        ok &= all(x == y for x, y in zip(s1, s2))
+        print('qids', qs, 'sorted', s1)
+        return bool(ok)
+    if k == 'xproc':
+        ex = Explorer(ctx, mods, None)
+        ex.xproc = [(data['label'], base64.b64decode(data['pickle_b64']), data['json_text'])]
+        before = len(ctx.violations)
+        stream_xproc(ctx, mods, ex)
+        return len(ctx.violations) == before and not ctx.known_hits
+    if k == 'id_cache':
+        specs = load_specs()
+        pop = Population(mods, specs)
+        before = len(ctx.violations)
+        stream_id_cache(ctx, mods, pop, [])
+        return len(ctx.violations) == before and not ctx.broken
     print('nothing to replay for kind', k)
     return False
 
